@@ -68,7 +68,7 @@ type c13Entry struct {
 
 func VerifHarness_C13_rt() {
 	// ---- the group to write
-	n := verifConc(ndInt("entries", 0, 2))
+	n := verifConc(ndInt("entries", 0, 2+verifTier()))
 	maxNested := 1 + verifTier()
 	var want []c13Entry
 	g := NewRepeatingGroup(c13Group, c13Template())
@@ -113,7 +113,7 @@ func VerifHarness_C13_rt() {
 	m.Header.SetString(tagBeginString, "FIX.4.2")
 	m.Header.SetString(tagMsgType, "D")
 	m.Body.SetGroup(g)
-	place := verifConc(ndInt("placement", 0, 3))
+	place := verifConc(ndInt("placement", 0, 4))
 	follow := verifValueN("follow", 1)
 	otherTail := place == 3 && ndBool("following-group-has-its-own-last-member")
 	switch place {
@@ -126,6 +126,12 @@ func VerifHarness_C13_rt() {
 		verifCase("group-between-fields")
 		m.Body.SetBytes(Tag(11), follow)
 		m.Body.SetBytes(Tag(c13Follow), follow)
+	case 4:
+		// another top-level group directly before ours (lower counter tag, so it is written first)
+		verifCase("group-preceded-by-group")
+		pg := NewRepeatingGroup(c13Third, GroupTemplate{GroupElement(c13OtherDelim), GroupElement(c13ThirdTail)})
+		pg.Add().SetBytes(c13OtherDelim, follow)
+		m.Body.SetGroup(pg)
 	case 3:
 		verifCase("group-followed-by-group")
 		og := NewRepeatingGroup(c13Other, c13OtherTemplate())
@@ -216,6 +222,9 @@ func VerifHarness_C13_rt() {
 	}
 	// fields around the group are still found in the body
 	switch place {
+	case 4:
+		pg := NewRepeatingGroup(c13Third, GroupTemplate{GroupElement(c13OtherDelim), GroupElement(c13ThirdTail)})
+		verifAssert(p.Body.GetGroup(pg) == nil && pg.Len() == 1, "preceding-group-still-readable")
 	case 1:
 		v, ok := val(&p.Body.FieldMap, c13Follow)
 		verifAssert(ok && verifBytesEq(v, follow), "field-next-to-group-still-in-body")
